@@ -9,7 +9,7 @@ package main
 // with a nil dereference; the terminal is not left in raw mode.
 //@ func rmain() (code)
 //@   locals cbAddrs addr fdir tmplf printDefaultTemplate certFile noTimestamps printIPv6 useIcanhazip logFile oneShell insertFile printCtrlI s err ich och iob err lw f err sl ctrlIConv insertGen b err b err shell cleanup fi err a err svr eg ectx
-//@   props C20
+//@   props C20 C11
 //@   ghost raw bool = false
 //@   ghost shellErr bool = false
 //@   ghost iobErr bool = false
@@ -22,7 +22,7 @@ package main
 //@   ghost perr error = nil
 //@   ghost reported bool = false
 //@   on call iobroker.New(i, o) (b, e): iobErr = e != nil; assert(pending == 0, "no_earlier_failure_ignored"); if e != nil { pending = 1; perr = e }
-//@   on call os.OpenFile(n, fl, pm) (f, e): logErr = e != nil; logf = f; nOpenLog++; assert(pending == 0 && n == *logFile && *logFile != "", "no_earlier_failure_ignored"); if e != nil { pending = 2; perr = e }
+//@   on call os.OpenFile(n, fl, pm) (f, e): logErr = e != nil; logf = f; nOpenLog++; assert(pending == 0 && n == *logFile && *logFile != "", "no_earlier_failure_ignored"); assert(fl == os.O_CREATE|os.O_WRONLY|os.O_APPEND, "the_log_file_is_only_ever_appended_to"); if e != nil { pending = 2; perr = e }
 //@   on call insertGen() (b, e): assert(pending == 0, "no_earlier_failure_ignored"); if e != nil { pending = 3; perr = e }
 //@   on call opshell.New(i, o, p, nt, g, n) (sh, cl, e): shellErr = e != nil; raw = e == nil; assert(pending == 0, "no_earlier_failure_ignored"); if e != nil { pending = 4; perr = e }
 //@   on call ezicanhazip.IPv4() (a, e): ipErr = e != nil; assert(pending == 0, "no_earlier_failure_ignored"); if e != nil { pending = 5; perr = e }
